@@ -291,6 +291,77 @@ Section Sys.
     - exfalso. unfold absent in Hab. rewrite Hb in Hab. unfold FsP.is_link in Hl. rewrite Hab in Hl. discriminate.
   Qed.
 
+  (* ---- the ghost invariant [keeps_new] ---- *)
+  Notation keeps_new := (keeps_new dr b).
+
+  Lemma tgt_next f cs d x : Tgt f cs d x -> b <= f_next f.
+  Proof. intros T. apply (inv_next f0 dr f). eapply tgt_inv; eauto. Qed.
+
+  Lemma k_create f cs d x r isdir k mode : Tgt f cs d x -> l_dir r = d -> leaf_kind k ->
+    keeps_new f (fst (create_at f r isdir k mode)).
+  Proof.
+    intros T H1 Hl. apply kn_create_at; auto; [eapply tgt_alloc; eauto|rewrite H1; eapply tgt_dir; eauto|eapply tgt_next; eauto].
+  Qed.
+
+  Lemma k_mkdir f cs d x mode f' res : Tgt f cs d x -> sys_mkdir c f (tpath cs x) mode = (f', res) -> keeps_new f f'.
+  Proof.
+    intros T H. destruct (sys_mkdir_inv _ _ _ _ _ _ H) as [[-> _]|(r & E & Hn & -> & ->)]; [apply keeps_new_refl|].
+    destruct (tgt_resolve_nf f cs d x r T E) as (H1 & _). eapply k_create; eauto. reflexivity.
+  Qed.
+  Lemma k_mknod f cs d x typ mode rdev f' res : Tgt f cs d x -> sys_mknod c f (tpath cs x) typ mode rdev = (f', res) -> keeps_new f f'.
+  Proof.
+    intros T H. destruct (sys_mknod_inv _ _ _ _ _ _ _ _ H) as [[-> _]|(r & a & b0 & E & Hn & -> & ->)]; [apply keeps_new_refl|].
+    destruct (tgt_resolve_nf f cs d x r T E) as (H1 & _). eapply k_create; eauto. exact I.
+  Qed.
+  Lemma k_mknod_reg f cs d x mode f' res : Tgt f cs d x -> sys_mknod_reg c f (tpath cs x) mode = (f', res) -> keeps_new f f'.
+  Proof.
+    intros T H. destruct (sys_mknod_reg_inv _ _ _ _ _ _ H) as [[-> _]|(r & E & Hn & -> & ->)]; [apply keeps_new_refl|].
+    destruct (tgt_resolve_nf f cs d x r T E) as (H1 & _). eapply k_create; eauto. exact I.
+  Qed.
+  Lemma k_symlink f cs d x t f' res : Tgt f cs d x -> sys_symlink c f t (tpath cs x) = (f', res) -> keeps_new f f'.
+  Proof.
+    intros T H. destruct (sys_symlink_inv _ _ _ _ _ _ H) as [[-> _]|(r & E & Hn & -> & ->)]; [apply keeps_new_refl|].
+    destruct (tgt_resolve_nf f cs d x r T E) as (H1 & _). eapply k_create; eauto. exact I.
+  Qed.
+  Lemma k_open_creat f cs d x mode f' res : Tgt f cs d x -> absent f d x ->
+    sys_open_wronly c f (tpath cs x) true mode = (f', res) -> keeps_new f f'.
+  Proof.
+    intros T Hab H.
+    destruct (sys_open_wronly_inv _ _ _ _ _ _ _ H) as [[-> _]|[(r & i & dd & E & Hi & Hg & _ & -> & ->)|(r & E & Hn & _ & -> & ->)]];
+      try apply keeps_new_refl.
+    destruct (resolve_tpath c f0 dr dcs f cs d x true r) as [(K1 & _)|(_ & i & Hb & Hl)]; try apply T; auto.
+    - eapply k_create; eauto. exact I.
+    - exfalso. unfold absent in Hab. rewrite Hb in Hab. unfold FsP.is_link in Hl. rewrite Hab in Hl. discriminate.
+  Qed.
+  (* link(2): the linked inode must be one the copier created *)
+  Lemma k_link f cs d x first f' res : Tgt f cs d x ->
+    (forall i, resolve_ino c f first false = inl i -> b <= i) ->
+    sys_link c f first (tpath cs x) = (f', res) -> keeps_new f f'.
+  Proof.
+    intros T Hnew H. destruct (sys_link_inv _ _ _ _ _ _ H) as [[-> _]|(i & r & E1 & E & Hn & Hd & -> & ->)]; [apply keeps_new_refl|].
+    destruct (tgt_resolve_nf f cs d x r T E) as (H1 & _). rewrite H1.
+    apply kn_add_ent; auto. eapply tgt_dir; eauto.
+  Qed.
+  Lemma k_del f cs d x : Tgt f cs d x -> keeps_new f (del_ent f d x).
+  Proof. intros T. apply kn_del_ent. apply (inv_nodup f0 dr f); [eapply tgt_inv; eauto|eapply tgt_SS; eauto]. Qed.
+  Lemma k_unlink f cs d x f' res : Tgt f cs d x -> sys_unlink c f (tpath cs x) = (f', res) -> keeps_new f f'.
+  Proof.
+    intros T H. destruct (sys_unlink_inv _ _ _ _ _ H) as [[-> _]|(r & i & E & Hi & Hd & -> & ->)]; [apply keeps_new_refl|].
+    destruct (tgt_resolve_nf f cs d x r T E) as (H1 & H2 & _). rewrite H1, H2. eapply k_del; eauto.
+  Qed.
+  Lemma k_rmdir f cs d x f' res : Tgt f cs d x -> sys_rmdir c f (tpath cs x) = (f', res) -> keeps_new f f'.
+  Proof.
+    intros T H. destruct (sys_rmdir_inv _ _ _ _ _ H) as [[-> _]|(r & i & E & Hi & Hd & -> & ->)]; [apply keeps_new_refl|].
+    destruct (tgt_resolve_nf f cs d x r T E) as (H1 & H2 & _). rewrite H1, H2. eapply k_del; eauto.
+  Qed.
+  Lemma k_remove_all f cs d x f' res : Tgt f cs d x -> sys_remove_all c f (tpath cs x) = (f', res) -> keeps_new f f'.
+  Proof.
+    intros T H. destruct (sys_remove_all_inv _ _ _ _ _ H) as [->|(r & i & E & Hi & Hd & -> & ->)]; [apply keeps_new_refl|].
+    destruct (tgt_resolve_nf f cs d x r T E) as (H1 & H2 & _). rewrite H1, H2. eapply k_del; eauto.
+  Qed.
+  Lemma k_meta f f' : meta_post f f' -> keeps_new f f'.
+  Proof. intros (_ & _ & D & I & _). apply kn_same; auto. Qed.
+
   Lemma s_del f cs d x : Tgt f cs d x -> shrinks f (del_ent f d x) d x.
   Proof.
     intros T. apply shrinks_del_ent. apply (inv_nodup f0 dr f); [eapply tgt_inv; eauto|eapply tgt_SS; eauto].
